@@ -61,7 +61,12 @@ async fn scenario(sim: Arc<Sim>, unit: Value) -> Obs {
     let action = unit["action"].as_str().unwrap_or("shutdown").to_string();
     let ctx = format!("[peers {n_peers}, in flight {}, concurrent {}, action {action}, crash {crash}]", unit["inflight"], unit["concurrent"]);
 
-    let n = sim.start(&NodeSpec::new(1).config(cfg_n())).unwrap();
+    let mut cfg_under_test = cfg_n();
+    if has(&unit, "concurrent", "flood") {
+        // a one-slot mailbox between the API and the connection manager
+        cfg_under_test.connection_manager_channel_capacity = Some(1);
+    }
+    let n = sim.start(&NodeSpec::new(1).config(cfg_under_test)).unwrap();
     let nn = sim.node_of(&n);
     let n_addr = n.local_addr();
     let n_id = n.peer_id();
@@ -231,6 +236,14 @@ async fn scenario(sim: Arc<Sim>, unit: Value) -> Obs {
     let mut dropped_all_handles = false;
     match action.as_str() {
         "shutdown" | "shutdown_then_calls" => {
+            if has(&unit, "concurrent", "flood") {
+                // three connect calls issued in the same scheduler turn, before shutdown(): the
+                // manager's mailbox is full when the shutdown request is submitted
+                for _ in 0..3 {
+                    let n2 = n.clone();
+                    concurrent.push(("connect".into(), tokio::spawn(async move { n2.connect(hole_addr).await.map(|_| ()).map_err(|e| e.to_string()) })));
+                }
+            }
             let n2 = n.clone();
             let sd = tokio::spawn(async move { n2.shutdown().await.map_err(|e| e.to_string()) });
             tokio::task::yield_now().await;
@@ -418,7 +431,7 @@ impl Check for C08 {
         CheckMeta {
             property: "C08",
             level: "fault_enumeration",
-            rule: "network under test with 0-2 connected peers; every subset (size <= 2 quick / 3 thorough) of in-flight work {outbound rpc, inbound rpc being served, second inbound rpc, explicit dial to a black hole, background dial, outbound dial cut after its k-th datagram, inbound handshake cut after its k-th datagram} x concurrent API calls {connect, rpc, second shutdown, subscribe/peers/disconnect} x action {shutdown, drop of the last handle}; crash points: runtime dropped before / during (after each k-th datagram of the close exchange) / after shutdown with handles alive, endpoint driver killed, connection drivers killed, fatal socket error, handler or pending tasks cancelled while the manager is still polled; plus datagram-fate deviations on the close exchange; distinct = distinct (action, stream end, event count / teardown point)".into(),
+            rule: "network under test with 0-2 connected peers; every subset (size <= 2 quick / 3 thorough) of in-flight work {outbound rpc, inbound rpc being served, second inbound rpc, explicit dial to a black hole, background dial, outbound dial cut after its k-th datagram, inbound handshake cut after its k-th datagram} x concurrent API calls {connect, rpc, second shutdown, subscribe/peers/disconnect, three connects filling a one-slot manager mailbox just before shutdown()} x action {shutdown, drop of the last handle}; crash points: runtime dropped before / during (after each k-th datagram of the close exchange) / after shutdown with handles alive, endpoint driver killed, connection drivers killed, fatal socket error, handler or pending tasks cancelled while the manager is still polled; plus datagram-fate deviations on the close exchange; distinct = distinct (action, stream end, event count / teardown point)".into(),
             assumptions: vec![
                 "multi-thread runtime teardown is emulated on one thread by cancelling task classes (hook H5) or killing quinn driver tasks at quiescent points, then dropping the runtime".into(),
                 "a wall-clock watchdog turns a poll that never returns into a 'hang' verdict".into(),
@@ -430,12 +443,15 @@ impl Check for C08 {
     fn units(&self, tier: Tier) -> Vec<Value> {
         let mut u = vec![];
         let items = ["out_rpc", "in_rpc", "in_rpc2", "dial_blackhole", "bg_dial"];
-        let concs: Vec<Vec<&str>> = vec![vec![], vec!["connect"], vec!["rpc"], vec!["shutdown"], vec!["sync"], vec!["connect", "rpc", "shutdown", "sync"]];
+        let concs: Vec<Vec<&str>> = vec![vec![], vec!["connect"], vec!["rpc"], vec!["shutdown"], vec!["sync"], vec!["connect", "rpc", "shutdown", "sync"], vec!["flood"], vec!["flood", "rpc", "shutdown"]];
         for peers in 0..=2u64 {
             for inflight in subsets(&items, 3) {
                 for action in ["shutdown", "drop"] {
                     for (ci, conc) in concs.iter().enumerate() {
-                        if tier == Tier::Quick && ci != 0 && ci != 5 && inflight.len() > 2 {
+                        if ci >= 6 && action == "drop" {
+                            continue;
+                        }
+                        if tier == Tier::Quick && ci != 0 && ci != 5 && ci != 6 && inflight.len() > 2 {
                             continue;
                         }
                         u.push(json!({"peers":peers,"inflight":inflight,"concurrent":conc,"action":action,"crash":"none","bound":0}));
